@@ -123,9 +123,9 @@ def read_known():
                 line = line.strip()
                 if not line or line.startswith("#"):
                     continue
-                m = re.match(r"known:\s+property=(\S+)\s+key=(\S+)\s+(.*)$", line)
+                m = re.match(r'known:\s+property=(\S+)\s+key=(?:"([^"]+)"|(\S+))\s+(.*)$', line)
                 if m:
-                    known.setdefault(m.group(1), {})[m.group(2)] = m.group(3)
+                    known.setdefault(m.group(1), {})[m.group(2) or m.group(3)] = m.group(4)
                     continue
                 m = re.match(r"fixed:\s+property=(\S+)\s+(\S+)\s+(.*)$", line)
                 if m:
